@@ -46,7 +46,7 @@ type OutSpec struct {
 type Obs struct {
 	T      time.Duration
 	End    time.Duration
-	LogLen int                    // commit log length when the observation started
+	LogLen int                     // commit log length when the observation started
 	Seen   map[string][]*model.Res // per input "ns/typ/id" -> contents read (nil slice + Missing for a not-found Get)
 	Errs   map[string]string
 	Key    model.Key // queue probe: the reconciled item
@@ -71,22 +71,23 @@ func (o Outcomes) at(n int) string {
 
 // PlainProbe is a controller.Controller that reads all its inputs on every wake-up and records them.
 type PlainProbe struct {
-	W        *World
-	NameStr  string
-	Ins      []InSpec
-	Outs     []OutSpec
-	Busy     time.Duration
-	Late     []InSpec // inputs added through UpdateInputs on the LateAt-th wake-up (0 = never)
-	LateAt   int
-	RunOut   Outcomes // outcome per wake-up: ok | err (Run returns error) | panic
-	OnWake   func(ctx context.Context, r controller.Runtime, p *PlainProbe, n int) // extra work per wake-up
+	W       *World
+	NameStr string
+	Ins     []InSpec
+	DeclIns []InSpec // when set: declared inputs (the probe then reads only Ins)
+	Outs    []OutSpec
+	Busy    time.Duration
+	Late    []InSpec // inputs added through UpdateInputs on the LateAt-th wake-up (0 = never)
+	LateAt  int
+	RunOut  Outcomes                                                              // outcome per wake-up: ok | err (Run returns error) | panic
+	OnWake  func(ctx context.Context, r controller.Runtime, p *PlainProbe, n int) // extra work per wake-up
 
-	mu       sync.Mutex
-	Obs      []Obs
-	Starts   []time.Duration // virtual times at which Run was (re)started
-	wakes    int
-	curIns   []InSpec
-	rt       controller.Runtime
+	mu               sync.Mutex
+	Obs              []Obs
+	Starts           []time.Duration // virtual times at which Run was (re)started
+	wakes            int
+	curIns           []InSpec
+	rt               controller.Runtime
 	ResetBackoffOnOK bool
 }
 
@@ -97,8 +98,13 @@ func (p *PlainProbe) Name() string { return p.NameStr }
 
 // Inputs implements controller.Controller.
 func (p *PlainProbe) Inputs() []controller.Input {
-	out := make([]controller.Input, 0, len(p.Ins))
-	for _, i := range p.Ins {
+	decl := p.Ins
+	if p.DeclIns != nil {
+		decl = p.DeclIns
+	}
+
+	out := make([]controller.Input, 0, len(decl))
+	for _, i := range decl {
 		out = append(out, i.ToInput())
 	}
 
@@ -280,11 +286,11 @@ type QProbe struct {
 	ZeroConc bool // declare Concurrency = Some(0) (invalid)
 	Busy     time.Duration
 	// Mapper: mapped (typ,id) -> primary ids (of the first primary input)
-	Mapper   map[string][]string
-	RecOut   Outcomes // outcome per Reconcile invocation (global counter)
-	MapOut   Outcomes
-	HookOut  Outcomes // run hook outcomes; nil = no run hook
-	Requeue  time.Duration
+	Mapper      map[string][]string
+	RecOut      Outcomes // outcome per Reconcile invocation (global counter)
+	MapOut      Outcomes
+	HookOut     Outcomes // run hook outcomes; nil = no run hook
+	Requeue     time.Duration
 	OnReconcile func(ctx context.Context, r controller.QRuntime, ptr resource.Pointer, n int) error
 
 	mu        sync.Mutex
